@@ -888,6 +888,30 @@ def erase(woven):
     return files
 
 
+DROPPABLE = (':before[', ':after[', ':start#', ':end#', ':loop')
+
+
+def strip_clauses(woven, cids):
+    """remove the marked insertions whose clause id is in `cids` (site clauses and loop clauses only: they are
+    self-contained, removing them leaves the real text and the other insertions untouched). Returns (text, dropped)
+    where dropped = [(cid, sorted property tags of the removed text)]."""
+    dropped = []
+    def rep_(m):
+        cid = m.group(1)
+        if cid in cids and any(k in cid for k in DROPPABLE):
+            tags = set() if m.group(2) == '-' else set(m.group(2).split(','))
+            for t in re.finditer(r'/\*@p ([C0-9,]+)\*/', m.group(3)): tags |= set(t.group(1).split(','))
+            mq = re.match(r'^[^:]+:(.+?):(?:before|after|start|end|loop)', cid)
+            # dropping an assertion or a ghost `let` only removes proved facts; dropping a loop clause or a proof hint (lemma
+            # call, reveal, broadcast use) can make OTHER obligations of the function unprovable for no semantic reason
+            unsafe = ':loop' in cid or bool(re.search(r'\blemma_\w+\s*\(|broadcast use|reveal\s*\(|\bby\s*\(', m.group(3)))
+            dropped.append((cid, sorted(tags), mq.group(1) if mq else None, unsafe))
+            return f"/*@+ {cid} -*/" + '\n' * m.group(3).count('\n') + '/*@-*/'   # emptied insertion, line numbers stable
+        return m.group(0)
+    text = re.sub(r'/\*@\+ (\S+) ([C0-9,]+|-)\*/(.*?)/\*@-\*/', rep_, woven, flags=re.S)
+    return text, dropped
+
+
 def line_map(woven):
     """per woven line (1-based index): dict(file, line) or dict(clause, props); plus clause line tags."""
     res = [None]
